@@ -368,6 +368,15 @@ func init() {
 				sc.Blocks[i].Evidence = nil
 				sc.Blocks[i].AllAbsent = false
 			}
+			// the node is restarted now and then: votes already committed must still count as cast
+			if r.Intn(2) == 0 {
+				sc.Params = map[string]int64{"main_restart": 1}
+				for i := range sc.Blocks {
+					if i > 0 && r.Intn(8) == 0 {
+						sc.Blocks[i].Restart = true
+					}
+				}
+			}
 			return sc
 		},
 		Monitors: func(sc *Scenario) []Monitor { return []Monitor{&MonC20{}} },
